@@ -189,7 +189,7 @@ class FJSP(Adapter):
             return cells
         for nops in [(1, 1), (2, 1), (1, 2), (2, 2)]:
             for wait in (False, True):
-                cells.append((2, 2, 4, nops, wait, None, 24))
+                cells.append((2, 2, 4, nops, wait, None, 18))
         for nops in [(1, 1, 1), (2, 1, 1), (1, 1, 2), (1, 2, 1)]:
             for wait in (False, True):
                 cells.append((3, 2, 6, nops, wait, None, 6))
